@@ -488,6 +488,9 @@ class SimNet:
             # classic lingering-close race); that race is inherent to TCP and
             # not attributable to aiohttp, so src learns of the close by EOF only.
             pipe.buf.clear()
+            if src._closing and not src._closed:
+                # the writer had called close() with these bytes still unsent: its close completes now
+                src._finish_close(None)
             src._maybe_resume_protocol_safe()
             return
         if dst._read_paused or pipe.held:
